@@ -180,6 +180,27 @@ class DictMonitor:
                  .skip_bits(3).load_dict(w, value_deserializer=load)),
                 ('store_dict/preload_dict', lambda: self.Builder().store_dict(cell).end_cell().begin_parse().preload_dict(w, value_deserializer=load)),
             ]
+            if w >= 1:
+                # the dictionary as a later field of a cell whose earlier references were already consumed (another dictionary of the same width sits in
+                # front of it, so that a parser reading from the wrong reference returns a plausible but different map)
+                decoy = bridge.to_lib(dictref.encode({u(0, w): ('1', [])}, w))
+
+                def after_ref(peek):
+                    s = self.Builder().store_ref(decoy).store_uint(3, 2).store_dict(cell).store_uint(1, 1).end_cell().begin_parse()
+                    s.load_ref()
+                    s.skip_bits(2)
+                    before = (s.bits.to01(), s.remaining_refs)
+                    got = (s.preload_dict if peek else s.load_dict)(w, value_deserializer=load)
+                    if peek and (s.bits.to01(), s.remaining_refs) != before:
+                        raise AssertionError('preload_dict consumed from the slice')
+                    return got
+
+                def second_dict(peek):
+                    s = self.Builder().store_dict(decoy).store_dict(cell).end_cell().begin_parse()
+                    s.load_maybe_ref()
+                    return (s.preload_dict if peek else s.load_dict)(w, value_deserializer=load)
+                routes += [('after-consumed-ref/load_dict', lambda: after_ref(False)), ('after-consumed-ref/preload_dict', lambda: after_ref(True)),
+                           ('second-dict-field/load_dict', lambda: second_dict(False)), ('second-dict-field/preload_dict', lambda: second_dict(True))]
         for rname, f in routes:
             st, got = mon.call(f)
             R.count('route_' + rname)
